@@ -506,3 +506,33 @@ def loop_trip_count(b, h, body):
         if cb_ and cb_[1] == 1 and op in ("Gt", "Ne") and cb_[2][0] == "const" and cb_[2][2] == "0":
             return va, "count up to N"
     return None, None
+
+
+def for_each_view(n):
+    """An element loop in either spelling, as a `recv.for_each(|pat| body)` node: the method call itself, or a `for pat in recv { body }`
+    (HIR: Match[ForLoopDesugar] over into_iter(recv) around a loop matching next()) whose body has no break / continue / return."""
+    from .facts import hir_walk
+    n = peel(n)
+    if not isinstance(n, dict):
+        return None
+    if n.get("k") == "MethodCall" and n.get("method") == "for_each":
+        return n
+    if n.get("k") == "Match" and n.get("src") == "ForLoopDesugar" and len(n.get("arms", [])) == 1:
+        sc = peel(n["scrut"])
+        lp = peel(n["arms"][0]["body"])
+        if sc.get("k") != "Call" or not sc.get("args") or lp.get("k") != "Loop":
+            return None
+        blk = peel(lp["body"])
+        stmts = blk.get("stmts", []) if blk.get("k") == "Block" else []
+        inner = peel(stmts[0]["e"]) if len(stmts) == 1 and stmts[0].get("k") in ("ExprStmt", "Semi") else (peel(blk.get("expr")) if blk.get("k") == "Block" and blk.get("expr") else None)
+        if not inner or inner.get("k") != "Match" or inner.get("src") != "ForLoopDesugar":
+            return None
+        some = [a for a in inner["arms"] if a["pat"].get("k") == "Struct" and (a["pat"].get("res") or {}).get("name") == "Some"]
+        if len(some) != 1 or not some[0]["pat"].get("fields"):
+            return None
+        body = some[0]["body"]
+        if any(x.get("k") in ("Break", "Continue", "Ret") for x in hir_walk(body)):
+            return None
+        return {"k": "MethodCall", "method": "for_each", "recv": sc["args"][0], "span": n.get("span"), "synthetic_for": True,
+                "args": [{"k": "Closure", "params": [some[0]["pat"]["fields"][0]["pat"]], "body": body, "span": n.get("span")}]}
+    return None
